@@ -184,7 +184,7 @@ def cases(rng, tier):
             yield _inp(fmt, lay, vb if fmt == "bzr" else vg, ign, (1, 1, 1), dry=True)
             yield _inp(fmt, lay, vb if fmt == "bzr" else vg, ign, (1, 1, 1), confirm=False)
             yield _inp(fmt, lay, vb if fmt == "bzr" else vg, ign, (1, 0, 1), confirm=True)
-    n = 1100 if tier == "quick" else 12000
+    n = 1100 if tier == "quick" else 8000
     for i in range(n):
         fmt = "bzr" if rng.random() < 0.6 else "git"
         lay = _random_layout(rng, fmt)
